@@ -186,6 +186,13 @@ func (fr *Frame) staticCall(callee *ssa.Function, free []Val, args []Val, st *St
 	c := fr.c
 	if c.fc != nil && (fr.top || c.locMode) && c.specMode == 0 {
 		for _, cl := range c.fc.Clauses {
+			if cl.Kind == "callinst" && cl.Callee == callee.Name() {
+				env := &Env{c: c, fr: fr, st: st, old: fr.old, names: fr.env0, oldNames: fr.env0, bound: map[string]Val{}, blk: fr.curBlock, atLatch: true}
+				for i, a := range args {
+					env.bound[fmt.Sprintf("arg%d", i)] = a
+				}
+				c.assume(st.reach, c.lemmaInstance(env, cl.Src, cl.File, cl.Line))
+			}
 			if cl.Kind == "callsite" && cl.Callee == callee.Name() {
 				env := &Env{c: c, fr: fr, st: st, old: fr.old, names: fr.env0, oldNames: fr.env0, bound: map[string]Val{}, blk: fr.curBlock, atLatch: true}
 				for i, a := range args {
